@@ -89,6 +89,25 @@ def _owner_of(fn, arg):
     return None
 
 
+def _fresh_here(fn, root):
+    """root is a local whose every definition in fn is the result of an allocation primitive"""
+    root = fn.strip(root)
+    rn = fn.nodes[root]
+    if rn["k"] != "ref" or "d" not in rn or rn["d"] in fn.params:
+        return False
+    vid = rn["d"]
+    defs = []
+    for nd in fn.nodes:
+        if nd["k"] == "bin" and nd["o"] == "=":
+            l = fn.strip(nd["c"][0])
+            if fn.nodes[l]["k"] == "ref" and fn.nodes[l].get("d") == vid:
+                defs.append(fn.strip(nd["c"][1]))
+        elif nd["k"] == "decl" and nd.get("d") == vid and nd.get("c"):
+            defs.append(fn.strip(nd["c"][0]))
+    return bool(defs) and all(fn.nodes[d]["k"] == "call" and fn.nodes[d].get("o") in ("sexp_alloc_tagged_aux", "sexp_alloc")
+                              for d in defs)
+
+
 def release_once(prog, res):
     stat = res.stat("C16.c", "close/fclose of a fileno's descriptor or a port's stream: dominated by the owner's "
                     "openp test and by the store openp=0 on the same object; one refcount decrement site", floor=3)
@@ -102,6 +121,41 @@ def release_once(prog, res):
                     root, path = fn.mempath(x)
                     if path == ["value", "fileno", "count"]:
                         dec_sites.append((fn, i))
+            if nd["k"] == "bin" and nd["o"] == "=":
+                x = fn.strip(nd["c"][0])
+                if fn.nodes[x]["k"] == "mem":
+                    root, path = fn.mempath(x)
+                    if path == ["value", "port", "fd"] and fn.const_val(nd["c"][1]) is None:
+                        # a port takes a share of a fileno: the count of that fileno goes up in the same function
+                        stat.sites += 1
+                        stat.obligations += 1
+                        want = {fn.txt(fn.strip(nd["c"][1])), fn.txt(x)}
+                        paired = False
+                        for n2 in fn.nodes:
+                            if (n2["k"] == "un" and n2["o"] in ("pre++", "post++")) or (n2["k"] == "bin" and n2["o"] == "+="):
+                                y = fn.strip(n2["c"][0])
+                                if fn.nodes[y]["k"] == "mem":
+                                    r2, p2 = fn.mempath(y)
+                                    if p2 == ["value", "fileno", "count"] and fn.txt(r2) in want:
+                                        paired = True
+                        if paired:
+                            stat.discharged += 1
+                        else:
+                            res.add(Finding("C16", "C16.c.refcount-unpaired", fn.name, "port.fd = %s" % fn.txt(nd["c"][1])[:30],
+                                            fn.where(i),
+                                            "%s stores a fileno into a port without incrementing the fileno's reference count: the "
+                                            "port's finalizer decrements a count it never contributed to, so the descriptor is closed "
+                                            "while another port (or the fileno object itself) still uses it" % fn.name,
+                                            unit=fn.unit.display))
+                    if path == ["value", "fileno", "count"] and not _fresh_here(fn, root):
+                        stat.sites += 1
+                        stat.obligations += 1
+                        res.add(Finding("C16", "C16.c.refcount-overwritten", fn.name, "fileno.count = %s" % fn.txt(nd["c"][1])[:30],
+                                        fn.where(i),
+                                        "%s assigns an absolute value to the reference count of a fileno it did not allocate: the ports "
+                                        "that already share the descriptor are forgotten, so the first of them to be closed or collected "
+                                        "closes the descriptor under the others (counts of shared objects are only incremented and "
+                                        "decremented)" % fn.name, unit=fn.unit.display))
             if nd["k"] != "call" or nd.get("o") not in RELEASERS:
                 continue
             args = nd["c"][1:]
@@ -172,4 +226,45 @@ def release_once(prog, res):
                             fn.where(i) if fn else "-",
                             "the shared fileno reference count must be decremented at exactly one site (found %d)"
                             % len(dec_sites), unit=fn.unit.display if fn else ""))
+    return stat
+
+
+def derived_cpointers(prog, res, floor=3):
+    """A non-owning cpointer (freep 0) that wraps memory reached through the C value of another cpointer object
+    X - a field of X's struct, the address of an embedded member, the result of a C call on X's value - points
+    into storage X's finalizer releases.  It must name X as its parent (the parent slot is traced, C02.R5), or X
+    is finalized while the derived pointer is still in use."""
+    stat = res.stat("C16.e", "non-owning cpointers derived from another cpointer's C value name that object as parent",
+                    floor=floor)
+    for fn in prog.all_funcs():
+        if not fn.blocks:
+            continue
+        for i, nd in enumerate(fn.nodes):
+            if nd["k"] != "call" or nd.get("o") != "sexp_make_cpointer" or len(nd["c"]) < 6:
+                continue
+            args = nd["c"][1:]
+            val, parent, freep = args[2], args[3], args[4]
+            if fn.const_val(freep) != 0:
+                continue
+            owners = set()
+            for m in fn.subtree(val):
+                mn = fn.nodes[m]
+                if mn["k"] == "mem":
+                    root, path = fn.mempath(m)
+                    if path[:3] == ["value", "cpointer", "value"] and (fn.type(fn.strip(root)) or "") == "struct sexp_struct *":
+                        owners.add(fn.txt(fn.strip(root)))
+            if not owners:
+                continue
+            stat.sites += 1
+            stat.obligations += 1
+            ptxt = fn.txt(fn.strip(parent))
+            if ptxt in owners:
+                stat.discharged += 1
+                stat.sample({"site": fn.where(i), "function": fn.name, "parent": ptxt})
+                continue
+            res.add(Finding("C16", "C16.e.derived-pointer-without-parent", fn.name, "from %s" % sorted(owners)[0], fn.where(i),
+                            "%s wraps %s - memory reached through the C value of the cpointer object %s - in a non-owning cpointer "
+                            "whose parent is %s: nothing keeps %s alive, so its finalizer frees the memory while the derived "
+                            "pointer is still reachable" % (fn.name, fn.txt(val)[:60], sorted(owners)[0], ptxt, sorted(owners)[0]),
+                            unit=fn.unit.display))
     return stat
